@@ -9,8 +9,9 @@ CHECK = {
     "timeout": {"quick": 300, "thorough": 900},
     "rule": "replays of the two Lean witness schedules on the real userPanel/ActiveUser over a bbolt store (deadlock: two upload rounds "
             "parked/released at the updateUsageQueue VerifPoint; orphan: admission vs last-session closure, plain and with the closer parked at "
-            "ActiveUser.CloseSession:beforeTerminate), each in its own process, plus 1 (quick) / 4 (thorough) seeded random overlaps of "
-            "admissions, closures, upload rounds and traffic (8 goroutines x 250/1500 operations) under a watchdog. non-trivial = every case "
+            "ActiveUser.CloseSession:beforeTerminate; double termination of one record with a reconnect in between), each in its own process, "
+            "plus 3 (quick) / 8 (thorough) seeded random overlaps of admissions (with the dispatcher's CloseSession-on-refusal), closures, upload rounds "
+            "(one user running out of credit so that commits carry TERMINATE verdicts) and traffic (8 goroutines x 400/2500 operations) under a watchdog. non-trivial = every case "
             "overlaps at least two bookkeeping operations; distinct by case name",
     "assumptions": ["operations performed while holding a bookkeeping lock that are not themselves bookkeeping-lock acquisitions (bbolt calls, "
                     "sesh.Close()) return", "a loop body is counted once in a lock program (sound for a rank argument over balanced bodies)",
